@@ -47,7 +47,7 @@ def run(prog, rep, tier):
     # the aliases are synonyms only as long as the built-in names are resolved before anything the caller defines
     # (a user variable called p, T or B must not capture them): C11's R11.2, reported here as R16.2
     from . import C11
-    sub = type(rep)(rep.prop)
+    sub = rep.sub()
     C11.r11_2(prog, sub)
     for it in sub.items:
         it = dict(it)
@@ -156,7 +156,7 @@ def r16_2(prog, rep, reg):
     ctx.prog = prog
     ctx.ex = G.extract(prog)
     ctx.S = G.summaries(ctx.ex)
-    sub = type(rep)(rep.prop)
+    sub = rep.sub()
     C12.r12_4(ctx, sub)
     for it in sub.items:
         it = dict(it)
